@@ -293,6 +293,13 @@ pub fn parse_currency(input: &str) -> Result<String, ParseError> {
     Ok(input.to_string())
 }
 
+/// First two characters of a currency code (the country part compared by the C27 rules); the
+/// whole text when it is shorter or not cut on a character boundary (a value built from JSON
+/// has not gone through `parse_currency`)
+pub fn currency_prefix(currency: &str) -> &str {
+    currency.get(0..2).unwrap_or(currency)
+}
+
 /// Parse currency code with commodity validation (enforces C08 rule)
 ///
 /// This is a stricter version of parse_currency that also validates against
